@@ -13,5 +13,6 @@ CONSTANTS
   Chars = {}
   IntParts = {}
   Sample = 1
+  HiStep = 1
 INVARIANTS InvRoundTrip
 CHECK_DEADLOCK FALSE
